@@ -17,6 +17,7 @@ package main
 import (
 	"context"
 	"crypto/ed25519"
+	"crypto/sha256"
 	"encoding/binary"
 	"encoding/hex"
 	"encoding/json"
@@ -73,11 +74,15 @@ func digestIP(hash string, keyType string, key []byte, easing uint64) (netip.Add
 		binary.BigEndian.PutUint64(e[:], easing)
 		buf = append(buf, e[:]...)
 	}
-	if hash != "BLAKE3" {
-		return netip.Addr{}, false
+	switch hash {
+	case "BLAKE3":
+		sum := blake3.Sum256(buf)
+		return netip.AddrFrom16([16]byte(sum[:16])), true
+	case "SHA2_256":
+		sum := sha256.Sum256(buf)
+		return netip.AddrFrom16([16]byte(sum[:16])), true
 	}
-	sum := blake3.Sum256(buf)
-	return netip.AddrFrom16([16]byte(sum[:16])), true
+	return netip.Addr{}, false
 }
 
 // ---------- genuine identities
@@ -133,9 +138,58 @@ type forged struct {
 	desc map[string]any
 }
 
+// rederive grinds fresh keys until the digest of exactly the material that is presented (odd type names and
+// key sizes included) lies in fd00::/8; the address is that digest.
+func rederive(a act, rng *rand.Rand) forged {
+	for iter := 0; ; iter++ {
+		if iter == 2000000 {
+			panic(fmt.Sprintf("rederive does not terminate for %+v", a))
+		}
+		seed := make([]byte, ed25519.SeedSize)
+		rng.Read(seed)
+		priv := ed25519.NewKeyFromSeed(seed)
+		pub := append(ed25519.PublicKey(nil), priv.Public().(ed25519.PublicKey)...)
+		f := forged{priv: priv, desc: map[string]any{"rederived": true}}
+		f.pub = m.PublicAddress{Hash: crop.BLAKE3, Type: crop.KeyPairTypeEd25519, PublicKey: pub}
+		if a.Hash == "othervalid" {
+			f.pub.Hash = crop.SHA2_256
+		}
+		switch a.Type {
+		case "unknown":
+			f.pub.Type = crop.KeyPairType([]string{"RSA", "ed25519", "Ed448", "Ed25519 "}[rng.Intn(4)])
+		case "empty":
+			f.pub.Type = ""
+		}
+		switch a.Key {
+		case "short":
+			f.pub.PublicKey = pub[:[]int{31, 16, 8}[rng.Intn(3)]]
+		case "long":
+			f.pub.PublicKey = append(pub, make([]byte, []int{1, 8, 32}[rng.Intn(3)])...)
+		case "empty":
+			f.pub.PublicKey = nil
+		}
+		if a.Eased || a.Key == "empty" {
+			// (with an empty key the key cannot be varied: the easing is what is ground)
+			f.pub.Easing = 1 + uint64(rng.Intn(1000000))
+		}
+		ip, ok := digestIP(string(f.pub.Hash), string(f.pub.Type), f.pub.PublicKey, f.pub.Easing)
+		// a routable, geo-marked address (fd00::/9 with a continent marker): a peer with a privacy address cannot
+		// be given a peer route, which would hide what the identity check decided
+		if b := ip.As16(); !ok || b[0] != 0xfd || b[1]&0x80 != 0 || b[1]&0x70 == 0 {
+			continue
+		}
+		f.pub.IP = ip
+		f.desc["ip"], f.desc["hash"], f.desc["type"], f.desc["keylen"], f.desc["easing"] = ip.String(), trunc(string(f.pub.Hash)), trunc(string(f.pub.Type)), len(f.pub.PublicKey), f.pub.Easing
+		return f
+	}
+}
+
 func forge(a act, rng *rand.Rand, knownIP netip.Addr) forged {
 	if forgeOverride != nil {
 		return *forgeOverride
+	}
+	if a.IP == "rederived" {
+		return rederive(a, rng)
 	}
 	g := genuine(a.Eased)
 	if a.IP == "outside" {
@@ -560,7 +614,7 @@ func run(c *vf.Ctx) {
 
 	nCorrupt := func(a act) int {
 		n := 0
-		if a.IP != "digest" {
+		if a.IP != "digest" && a.IP != "rederived" { // a re-derived address is consistent with whatever else is presented
 			n++
 		}
 		if a.Hash != "orig" {
@@ -611,7 +665,8 @@ func run(c *vf.Ctx) {
 	for i, a := range todo {
 		switch a.Entry {
 		case "config":
-			f := forge(a, rng, otherKeys[0].IP)
+			// ("known": the address of some router that is none of the liar's keys)
+			f := forge(a, rng, mesh.Identities(1)[0].IP)
 			record(presentConfig(c, a, f, i%7 == 0 || nCorrupt(a) == 0), true, f, a)
 		case "peering":
 			o, ok, f := presentPeering(c, a, rng)
@@ -806,6 +861,9 @@ func acceptable(o obs) bool {
 		if o.Eased {
 			eas = "changed"
 		}
+	}
+	if o.IP == "rederived" {
+		return (o.Hash == "orig" || o.Hash == "othervalid") && o.Type == "ed25519" && (o.Key == "orig" || o.Key == "other") && eas == "orig"
 	}
 	return o.IP == "digest" && o.Hash == "orig" && o.Type == "ed25519" && o.Key == "orig" && eas == "orig"
 }
